@@ -6,7 +6,8 @@
                       core.py (_weather_data_current_timestep: row [time_step_counter]);
      (b) irrigation   initialize/read_irrigation_management.py, entities/irrigationManagement.py;
      (c) groundwater  initialize/read_groundwater_table.py, entities/groundWater.py
-                      (pandas Series.loc enlargement + Series.interpolate() = np.interp over POSITIONS);
+                      (Series.loc enlargement, sort_index, interpolate(method="time") = np.interp over the
+                      index in microseconds, bfill, reindex -- the code after commit 400240e);
      (d) field mngt   initialize/read_field_managment.py; CO2: entities/co2.py, the CO2 part of
                       initialize/compute_variables.py and of timestep/reset_initial_conditions.py.
 
@@ -229,40 +230,41 @@ Section M.
       gw_const_rows false r z2
     end.
 
-  (* "Variable": z.loc[date] = depth -- overwrites an existing label, otherwise ENLARGES the series
-     (the new label is appended after the last simulation day, whatever its date) *)
-  Definition has_label (d : Z) (z : Series) : bool := existsb (fun p => Z.eqb (fst p) d) z.
-  Definition set_label (d : Z) (v : F) (z : Series) : Series :=
-    if has_label d z then map (fun p => if Z.eqb (fst p) d then (fst p, Some v) else p) z
-    else z ++ [(d, Some v)].
+  (* "Variable" (as repaired by commit 400240e):
+       for every row, in the order given:  z.loc[date] = depth    (overwrites a label already present --
+                                            a simulation day or an earlier observation of the same date --
+                                            otherwise the series is enlarged by that label)
+       z.sort_index().interpolate(method="time").bfill().reindex(time_span)
+     After sort_index the non-NaN entries are the observations, one per date (the LAST write of a date
+     wins), in date order; interpolate(method="time") is np.interp over the index viewed as int64
+     (datetime64[us] under pandas 3: microseconds since 1970-01-01, i.e. day * 86400e6, exact in float64),
+     applied to the NaN entries only; NaN before the first observation are left by interpolate and filled
+     with the first observed depth by bfill (= np.interp's left value); after the last observation np.interp
+     gives the last depth; reindex keeps the simulation days. *)
+  Definition time_unit : Z := 86400000000.
 
-  Definition gw_var_rows (obs : list (Z * F)) (z : Series) : Series :=
-    fold_left (fun z p => set_label (fst p) (snd p) z) obs z.
+  (* the observations as sort_index leaves them: sorted by date, one per date, last write wins *)
+  Fixpoint insert_obs (d : Z) (v : F) (pts : list (Z * F)) : list (Z * F) :=
+    match pts with
+    | [] => [(d, v)]
+    | (d', v') :: r =>
+      if (d <? d')%Z then (d, v) :: pts
+      else if (d =? d')%Z then (d, v) :: r
+      else (d', v') :: insert_obs d v r
+    end.
+  Definition obs_sorted (obs : list (Z * F)) : list (Z * F) :=
+    fold_left (fun acc p => insert_obs (fst p) (snd p) acc) obs [].
 
-  (* Series.interpolate(): linear over POSITIONS (the index is not consulted), limit_direction forward:
-     NaN before the first valid value stay, NaN after the last valid value take it *)
-  Fixpoint valid_points (i : Z) (vals : list (option F)) : list (Z * F) :=
-    match vals with
-    | [] => []
-    | Some v :: r => (i, v) :: valid_points (i + 1) r
-    | None :: r => valid_points (i + 1) r
+  Definition to_time (pts : list (Z * F)) : list (Z * F) := map (fun p => ((fst p * time_unit)%Z, snd p)) pts.
+
+  (* the depth of simulation day d *)
+  Definition gw_time_interp (pts : list (Z * F)) (d : Z) : option F :=
+    match lookup_date d pts with
+    | Some v => Some v                                   (* an observed day keeps its value *)
+    | None => np_interp (to_time pts) (d * time_unit)%Z  (* a NaN day: np.interp over microseconds *)
     end.
 
-  Fixpoint interp_fill (pts : list (Z * F)) (i : Z) (vals : list (option F)) : list (option F) :=
-    match vals with
-    | [] => []
-    | Some v :: r => Some v :: interp_fill pts (i + 1) r
-    | None :: r =>
-      (match pts with
-       | [] => None
-       | (x0, _) :: _ => if (i <? x0)%Z then None else np_interp pts i
-       end) :: interp_fill pts (i + 1) r
-    end.
-
-  Definition interpolate (vals : list (option F)) : list (option F) :=
-    interp_fill (valid_points 0 vals) 0 vals.
-
-  (* read_groundwater_table: ParamStruct.z_gw (for "Variable" it can be LONGER than the window) *)
+  (* read_groundwater_table: ParamStruct.z_gw, one entry per simulation day *)
   Definition gw_series (present : bool) (m : GwMethod) (s e : Z) (obs : list (Z * F))
     : res (list (option F)) :=
     if negb present then Ok (map (fun _ => Some (#999 * #1)) (span s e))
@@ -272,13 +274,12 @@ Section M.
     | _ =>
       match m with
       | GwConstant => Ok (map snd (gw_const_rows true obs (nan_series s e)))
-      | GwVariable => Ok (interpolate (map snd (gw_var_rows obs (nan_series s e))))
+      | GwVariable => Ok (map (gw_time_interp (obs_sorted obs)) (span s e))
       | GwOtherMethod => Err EUnbound
       end
     end.
 
-  (* z_gw[time_step_counter] on day k; NaN (None) makes the first day's water-table check raise
-     (IndexError in read_model_initial_conditions on day 0, UnboundLocalError NewCond_WTinSoil later) *)
+  (* z_gw[time_step_counter] on day k (None = NaN; no branch of the present code produces one) *)
   Definition gw_at (z : list (option F)) (k : nat) : option F :=
     match nth_error z k with Some (Some v) => Some v | _ => None end.
 
